@@ -152,6 +152,10 @@ pub enum TokFault {
     TextInsert { at: usize, ch: char },
     /// text-level: replace a character
     TextReplace { at: usize, ch: char },
+    /// text-level: replace the character `back` positions from the end (1 = last)
+    TextReplaceBack { back: usize, ch: char },
+    /// text-level: drop the last `n` characters
+    TextDropBack { n: usize },
     /// text-level: add a segment ".xxxx" at the end
     TextExtraSegment { seg: String },
     /// text-level: a trailing '.' (empty footer segment) -- NOT a corruption by the property
@@ -414,6 +418,25 @@ pub fn apply_tok_fault(d: &mut Delivered, f: &TokFault) -> bool {
                 }
             }
         }
+        TokFault::TextReplaceBack { back, ch } => {
+            let chars: Vec<char> = d.text.chars().collect();
+            if *back >= 1 && *back <= chars.len() {
+                let at = chars.len() - back;
+                if chars[at] != *ch {
+                    let mut c2 = chars;
+                    c2[at] = *ch;
+                    d.text = c2.into_iter().collect();
+                    changed = true;
+                }
+            }
+        }
+        TokFault::TextDropBack { n } => {
+            let chars: Vec<char> = d.text.chars().collect();
+            if *n >= 1 && *n <= chars.len() {
+                d.text = chars[..chars.len() - n].iter().collect();
+                changed = true;
+            }
+        }
         TokFault::TextExtraSegment { seg } => {
             d.text.push('.');
             d.text.push_str(seg);
@@ -462,6 +485,8 @@ impl TokFault {
             TokFault::TextTrailingBits { .. } => "text-trailing-bits",
             TokFault::TextInsert { .. } => "text-insert",
             TokFault::TextReplace { .. } => "text-replace",
+            TokFault::TextReplaceBack { .. } => "text-replace-tail",
+            TokFault::TextDropBack { .. } => "text-drop-tail",
             TokFault::TextExtraSegment { .. } => "text-extra-segment",
             TokFault::TextTrailingDot => "text-trailing-dot",
             TokFault::TextHeaderCase => "text-header-case",
